@@ -55,7 +55,7 @@ Section Handshake0.
   Hypothesis U_small : (length U <= 32)%nat.
   Variable ports : list port.
 
-  Record HI (nst : option store) (r : rt) (cn : list Z) (cr : list rmsg)
+  Record HSI (nst : option store) (r : rt) (cn : list Z) (cr : list rmsg)
             (tg : list tag) (P A : list Z) : Prop := {
     h_rep : pq_rep (pending r) P;
     h_P : P = A ++ cn;
@@ -69,7 +69,7 @@ Section Handshake0.
   }.
 
   Definition HP (w : world) (tg : list tag) (P : list Z) : Prop :=
-    exists A, HI (nstorage (wn w)) (wr w) (chN w) (chR w) tg P A.
+    exists A, HSI (nstorage (wn w)) (wr w) (chN w) (chR w) tg P A.
 
   Lemma HP0 : HP world0 [] [].
   Proof.
@@ -78,13 +78,13 @@ Section Handshake0.
     - intros x [].
   Qed.
 
-  Lemma HI_nst_nodup : forall nst r cn cr tg P A, HI nst r cn cr tg P A -> NoDup (mids (omap nst)).
+  Lemma HSI_nst_nodup : forall nst r cn cr tg P A, HSI nst r cn cr tg P A -> NoDup (mids (omap nst)).
   Proof.
     intros nst r cn cr tg P A H. rewrite (h_last _ _ _ _ _ _ _ H).
     eapply chain_last_nodup; [apply (h_chain _ _ _ _ _ _ _ H) | apply (h_rnodup _ _ _ _ _ _ _ H)].
   Qed.
 
-  Lemma HI_fresh : forall nst r id rest cr tg P A, HI nst r (id :: rest) cr tg P A ->
+  Lemma HSI_fresh : forall nst r id rest cr tg P A, HSI nst r (id :: rest) cr tg P A ->
     ~ In id (mids (omap nst)).
   Proof.
     intros nst r id rest cr tg P A H. destruct H.
@@ -95,9 +95,9 @@ Section Handshake0.
       apply h_nodup0. apply in_app_iff. left. exact Hin.
   Qed.
 
-  Lemma HI_op : forall nst r cn cr tg P A nst' out,
-    HI nst r cn cr tg P A -> storage_step nst out nst' ->
-    HI nst' r cn (cr ++ out) (tg ++ out_tags out) P A.
+  Lemma HSI_op : forall nst r cn cr tg P A nst' out,
+    HSI nst r cn cr tg P A -> storage_step nst out nst' ->
+    HSI nst' r cn (cr ++ out) (tg ++ out_tags out) P A.
   Proof.
     intros nst r cn cr tg P A nst' out H S.
     destruct S as [[-> ->] | [s' [-> [-> [Hi Hn]]]]].
@@ -108,17 +108,17 @@ Section Handshake0.
       + rewrite lastm_app. reflexivity.
   Qed.
 
-  Lemma HI_watch : forall nst r cn cr tg P A,
-    HI nst r cn cr tg P A -> HI nst r cn (cr ++ [RWatch]) (tg ++ [TW]) P A.
+  Lemma HSI_watch : forall nst r cn cr tg P A,
+    HSI nst r cn cr tg P A -> HSI nst r cn (cr ++ [RWatch]) (tg ++ [TW]) P A.
   Proof.
     intros nst r cn cr tg P A H. destruct H. constructor; try assumption.
     - rewrite <- (app_nil_r A). apply chain_app; [assumption | auto |]. repeat constructor.
     - rewrite lastm_app. assumption.
   Qed.
 
-  Lemma HI_clear : forall nst r cn cr tg P A (lq : list (Z * bool)),
-    HI nst r cn cr tg P A ->
-    HI (Some empty_store) r cn (cr ++ map (fun _ => RUnwatch) lq ++ [RBind empty_store (-1)])
+  Lemma HSI_clear : forall nst r cn cr tg P A (lq : list (Z * bool)),
+    HSI nst r cn cr tg P A ->
+    HSI (Some empty_store) r cn (cr ++ map (fun _ => RUnwatch) lq ++ [RBind empty_store (-1)])
        (tg ++ map (fun _ => TR) lq ++ [TBf]) P A.
   Proof.
     intros nst r cn cr tg P A lq H. destruct H. constructor; try assumption.
@@ -133,7 +133,7 @@ Section Handshake0.
     pre_ok0 w e /\ HP w' (tstep tg e r) (pstep P tg e r).
   Proof.
     intros w tg P e w' r [A I] Hev Hs.
-    pose proof (HI_nst_nodup _ _ _ _ _ _ _ I) as Nn.
+    pose proof (HSI_nst_nodup _ _ _ _ _ _ _ I) as Nn.
     pose proof (h_rnodup _ _ _ _ _ _ _ I) as Nr.
     destruct e; cbn [step] in Hs; cbn [pstep tstep].
     - (* map *)
@@ -144,20 +144,20 @@ Section Handshake0.
       destruct (map_fact _ _ _ _ _ M Nn) as [[-> ->] | [out0 [-> [LQ S]]]].
       + cbn. rewrite !app_nil_r. exact I.
       + unfold out_tags. rewrite map_app, !app_assoc. cbn [map].
-        apply HI_watch. apply HI_op with (nst := nstorage (wn w)); assumption.
+        apply HSI_watch. apply HSI_op with (nst := nstorage (wn w)); assumption.
     - (* unMap *)
       split; [repeat split; assumption |].
       unfold nrt_result in Hs. destruct (nrt_unmap (wn w) a c) as [[n' out] |] eqn:M; [| discriminate].
       inversion Hs; subst w' r; clear Hs. cbn [app]. rewrite op_tags_out.
       exists A. cbn [wn wr chN chR].
       destruct (unmap_fact _ _ _ _ _ M Nn) as [LQ S].
-      apply HI_op with (nst := nstorage (wn w)); assumption.
+      apply HSI_op with (nst := nstorage (wn w)); assumption.
     - (* clear *)
       split; [repeat split; assumption |].
       cbn [nrt_clear nrt_result] in Hs. inversion Hs; subst w' r; clear Hs. cbn [app].
       rewrite map_app. cbn [map obs_of_rmsg]. rewrite op_tags_clear.
       exists A. cbn [wn wr chN chR nstorage].
-      apply HI_clear with (nst := nstorage (wn w)). assumption.
+      apply HSI_clear with (nst := nstorage (wn w)). assumption.
     - (* CC *)
       split; [repeat split; assumption |].
       destruct Hev as [HU Hpos]. set (id := cc_id par chan nrpn) in *.
@@ -197,7 +197,7 @@ Section Handshake0.
       + split; [repeat split; assumption |].
         inversion Hs; subst w' r; clear Hs. cbn [ans_tags flat_map app]. rewrite app_nil_r.
         exists A. rewrite EN. exact I.
-      + pose proof (HI_fresh _ _ _ _ _ _ _ _ I) as Fresh.
+      + pose proof (HSI_fresh _ _ _ _ _ _ _ _ I) as Fresh.
         split; [repeat split; assumption |].
         destruct I.
         assert (HinP : In id P) by (rewrite h_P0; apply in_app_iff; right; left; reflexivity).
@@ -286,12 +286,12 @@ Section Handshake0.
         split; [| exact Logic.I].
         (* the promise at the event that crashes: from the invariant alone *)
         destruct HH as [A I].
-        pose proof (HI_nst_nodup _ _ _ _ _ _ _ I) as Nn.
+        pose proof (HSI_nst_nodup _ _ _ _ _ _ _ I) as Nn.
         pose proof (h_rnodup _ _ _ _ _ _ _ I) as Nr.
         unfold pre_ok0. split; [assumption |]. split; [assumption |].
         destruct e; try exact Logic.I.
         destruct (chN w) as [| id rest] eqn:EN; [exact Logic.I |].
-        eapply HI_fresh. exact I.
+        eapply HSI_fresh. exact I.
   Qed.
 End Handshake0.
 
